@@ -1,4 +1,5 @@
 import Neutrino.Props.C17
+import Neutrino.Props.C17Reorg
 open Neutrino.Shutdown
 #print axioms C17_sites_partial
 #print axioms C17_sites_counterexample
@@ -13,3 +14,9 @@ open Neutrino.Shutdown
 #print axioms C17_quits_are_closed
 #print axioms C17_capacity_checked
 #print axioms C17_callbacks_on_workers
+open Neutrino.StopReorg
+#print axioms C17_rollback_runs_to_completion
+#print axioms C17_stop_mid_reorg_consistent
+#print axioms C17_stop_mid_reorg_same_as_no_stop
+#print axioms C17_interruptible_rollback_counterexample
+#print axioms C17_rollback_loop_has_no_quit_exit
